@@ -132,7 +132,7 @@ def handleValidation (cfg : Cfg) (method : Str) (reqH : Header) (key : Str) (sto
   let storedCC := parseCC stored.resp.header
   match ans with
   | .err t1 =>
-    if method = sGET && !mustValidate && canStaleOnError f t1 [storedCC, ccReq]
+    if method = sGET && !mustValidate && !(staleAt f t1 && storedCC.mustRevalidate) && canStaleOnError f t1 [storedCC, ccReq]
     then k (.resp (serveStale f t1 stored))
     else k .err
   | .resp r t1 bodyOk =>
@@ -148,7 +148,7 @@ def handleValidation (cfg : Cfg) (method : Str) (reqH : Header) (key : Str) (sto
           k (.resp (respWith r' (applyStatus .revalidated r'.header)))
       else Prog.setEntry stored.id stored' fun _ => out
     else if isStaleErrorAllowed r.status && method = sGET && !mustValidate &&
-            canStaleOnError f t1 [storedCC, ccReq]
+            !(staleAt f t1 && storedCC.mustRevalidate) && canStaleOnError f t1 [storedCC, ccReq]
     then k (.resp (serveStale f t1 stored))
     else
       let ccResp := parseCC r.header
